@@ -7,6 +7,15 @@ From Coq Require Import List Arith Bool Lia Relations.
 From DesVerif Require Import Topo.Model Topo.Graph.
 Import ListNotations.
 
+Lemma NoDup_app_snoc {A} (l : list A) x : NoDup l -> ~ In x l -> NoDup (l ++ [x]).
+Proof.
+  induction l as [|y r IH]; intros ND Hn; cbn [app].
+  - constructor; [intros []|constructor].
+  - inversion ND as [|y' r' Hy ND']. subst. constructor.
+    + intro H. apply in_app_or in H. destruct H as [H|[H|[]]]; [contradiction|]. subst. apply Hn. left. reflexivity.
+    + apply IH; [exact ND'|]. intro H. apply Hn. right. exact H.
+Qed.
+
 (* ---- the index prediction ---- *)
 Lemma sp_index_spec nds queue x i q' :
   nds <> [] ->
@@ -151,13 +160,14 @@ Proof.
   unfold sp_inv. rewrite app_nil_r. intros [ND [Hl [Hb [Hr [Hcl [Hhd _]]]]]].
   split; [|split; [exact Hhd|]].
   - split; [exact ND|]. split; [exact Hl|]. intros i m Hm. cbn [nodes] in *.
-    rewrite (filter_ext _ (fun _ => true) (fun _ => eq_refl)).
     assert (E : forall l : list (gref * list gref), filter (fun _ => true) l = l).
     { induction l as [|x l IH]; cbn [filter]; [reflexivity|f_equal; exact IH]. }
-    rewrite E. apply Hb. exact Hm.
+    rewrite E. unfold bundle. cbn [edges]. apply Hb. exact Hm.
   - intros m. cbn [nodes]. split; [apply Hr|].
     intros H. assert (Hroot : In root nds) by (destruct nds; [discriminate|inversion Hhd; left; reflexivity]).
-    induction H as [x|x y z Hxy _ IH]; [exact Hroot|]. apply IH. eapply Hcl; eassumption.
+    assert (Hclo : forall a b, mreach w a b -> In a nds -> In b nds).
+    { intros a b Hab. induction Hab as [x|x y z Hxy _ IH]; intros Ha; [exact Ha|]. apply IH. eapply Hcl; eassumption. }
+    apply (Hclo root m H Hroot).
 Qed.
 
 Lemma sp_loop_total fuel : forall nds eds queue,
